@@ -31,12 +31,13 @@ def pairs_event(y, n, same_length, seed):
   try:
     with warnings.catch_warnings(record=True) as w:
       warnings.simplefilter('always')
-      a, b, c, d = Constraints(np.array(y)).positive_negative_pairs(n, same_length=same_length, random_state=seed)
+      cons = Constraints(np.array(y))
+      a, b, c, d = cons.positive_negative_pairs(n, same_length=same_length, random_state=seed)
     ev['warned'] = any('Only generated' in str(x.message) for x in w)
     ev['A'], ev['B'], ev['C'], ev['D'] = one(a), one(b), one(c), one(d)
     with warnings.catch_warnings():
       warnings.simplefilter('ignore')
-      a, b, c, d = Constraints(np.array(y)).positive_negative_pairs(n, same_length=same_length, random_state=seed)
+      a, b, c, d = cons.positive_negative_pairs(n, same_length=same_length, random_state=seed)      # the SAME object again
     ev['A2'], ev['B2'], ev['C2'], ev['D2'] = one(a), one(b), one(c), one(d)
   except Exception as e:
     ev['exc'] = type(e).__name__
@@ -47,8 +48,13 @@ def chunks_event(y, n, size, seed):
   ev = {'ev': 'ConsChunks', 'y': [int(v) for v in y], 'n': int(n), 'size': int(size), 'seed': int(seed), 'exc': '',
         'ch': [], 'ch2': []}
   try:
-    ev['ch'] = [int(v) for v in Constraints(np.array(y)).chunks(n_chunks=n, chunk_size=size, random_state=seed)]
-    ev['ch2'] = [int(v) for v in Constraints(np.array(y)).chunks(n_chunks=n, chunk_size=size, random_state=seed)]
+    cons = Constraints(np.array(y))
+    ev['ch'] = [int(v) for v in cons.chunks(n_chunks=n, chunk_size=size, random_state=seed)]
+    # the SAME object asked again (a helper object holds labels, not consumable state), and a fresh object
+    ev['ch2'] = [int(v) for v in cons.chunks(n_chunks=n, chunk_size=size, random_state=seed)]
+    ch3 = [int(v) for v in Constraints(np.array(y)).chunks(n_chunks=n, chunk_size=size, random_state=seed)]
+    if ch3 != ev['ch']:
+      ev['ch2'] = ch3
   except Exception as e:
     ev['exc'] = type(e).__name__
   return ev
